@@ -75,6 +75,19 @@ def classify_edge(h, edge):
             is_true = (edge[1] == t_edge[1] and edge[2] == t_edge[2])
             eq_holds = is_true if c.op == "Eq" else not is_true
             return "eof" if eq_holds else None
+    if c.kind == "call" and c.term.callee.name == "ends_with" and len(c.term.args) == 2:
+        # `buf.ends_with(b"\\0")` / `buf.ends_with(&[0])`
+        sl = Slice(h.body, h.du, extra_pass=("=as_slice", "=deref", "=as_ref"))
+        on_buf = base_local(h.du, c.term.args[0]) in h.buf_locals or any(k == "call" and o.callee.name in ("new", "with_capacity") and o.dest.l in h.buf_locals for k, o in sl.origins(c.term.args[0]))
+        zero = False
+        for k, o in sl.origins(c.term.args[1]):
+            if k == "const":
+                if promoted_value(h, o) == 0: zero = True
+                txt = str((o.const or {}).get("str") or (o.const or {}).get("dbg") or "")
+                if txt in ('b"\\0"', 'b"\\x00"'): zero = True
+        if on_buf and zero:
+            is_true = (edge[1] == t_edge[1] and edge[2] == t_edge[2])
+            return None if is_true else "incomplete"
     if c.kind == "call" and c.term.callee.name in ("ne", "eq"):
         # operands: last byte of buf (get/last/index on a buf local) vs constant 0
         sl = Slice(h.body, h.du)
